@@ -93,7 +93,7 @@ IS_CONN = ("exists('c:Ref', c in self._conn_choice_data_map and self._conn_choic
 
 CONTRACTS.update({
     GP + 'GraphProcessor.fix_des_var': dict(
-        properties=['C15'],
+        properties=['C15', 'C05'],      # C05: no fix/free history leaves a stale mask behind (mask-refreshed-...)
         types={'self': 'Ref[GraphProcessor]', 'des_var': 'Ref[DesVar]', 'value': 'Optional[Real]'},
         requires={'is-a-variable-of-this-problem': 'des_var in self.all_des_vars',
                   'domain-set': 'implies(des_var._opts is None, des_var._bounds is not None)',
@@ -177,7 +177,7 @@ DOMAIN[GP + 'GraphProcessor.fix_des_var'] = _domain_fix
 
 # freeing = fixing to None (checked against the contract of the real fix_des_var, not against its body)
 CONTRACTS[GP + 'GraphProcessor.free_des_var'] = dict(
-    properties=['C15'],
+    properties=['C15', 'C05'],
     types={'self': 'Ref[GraphProcessor]', 'des_var': 'Ref[DesVar]'},
     requires=dict(CONTRACTS[GP + 'GraphProcessor.fix_des_var']['requires']),
     funcs={'MASK': (['Dict[Int,Int]'], 'Ref'), 'MASKOF': (['Dict[Int,Real]', 'List[Int]'], 'Ref')},
